@@ -6,10 +6,12 @@ import (
 	"fmt"
 	"math/rand"
 	"os"
+	"os/signal"
 	"path/filepath"
 	"sort"
 	"strings"
 	"sync"
+	"syscall"
 	"time"
 
 	"google.golang.org/protobuf/proto"
@@ -37,13 +39,19 @@ type c10File struct {
 }
 
 type c10Case struct {
-	Index       int        `json:"index"`
-	Stream      string     `json:"stream"` // transmit | drop | dup | flip | drop-done | abort | none
-	K           int        `json:"k"`
-	StageMode   string     `json:"stage_mode"`
-	CrossDevice bool       `json:"root_on_other_device_than_staging"`
-	Earlier     bool       `json:"earlier_interrupted_round"`
-	Files       []*c10File `json:"files"`
+	Index       int    `json:"index"`
+	Stream      string `json:"stream"` // transmit | drop | dup | flip | drop-done | abort | none
+	K           int    `json:"k"`
+	StageMode   string `json:"stage_mode"`
+	CrossDevice bool   `json:"root_on_other_device_than_staging"`
+	Earlier     bool   `json:"earlier_interrupted_round"`
+	// Abandoned: the earlier round's receiver was dropped after a few operations (no finalize),
+	// leaving a partial temporary of a LARGE earlier version of a file in the staging root.
+	Abandoned    bool       `json:"earlier_receiver_abandoned_mid_file"`
+	SizeLimit    uint64     `json:"maximum_staging_file_size"`
+	LimitVariant string     `json:"limit_variant,omitempty"` // last-op | earlier | at | above (relative to LimitFile)
+	LimitFile    string     `json:"limit_file,omitempty"`
+	Files        []*c10File `json:"files"`
 }
 
 func c10Size(r *rand.Rand) int {
@@ -110,6 +118,7 @@ func c10() {
 	}
 	q.wait()
 	c10LargeCancel(r)
+	c10CopyIOError(r)
 	r.Assume("the harness plays the peer: it calls Scan, Stage, feeds the returned receiver (real rsync.Transmit from a source root, or a recorded stream replayed through rsync.DecodeToReceiver with tampering/abort), then Transition, on a real local endpoint (beta) over a real root")
 	r.Assume("'bad staged data' is asserted only where the harness knows the delivered bytes differ from the plan (source changed after the plan, source missing, nothing sent, files after an abort point); for tampered streams only 'claimed => digest matches' and 'no foreign content' are asserted")
 	r.Finish("random roots and plans (creates, swaps derived by edits so that block operations occur, nested creations, copies of existing root files) x feed mode per file x stream mode per case (+ an interrupted earlier round leaving staged content, junk in the staging root); distinct = (stream mode, feed, change kind, size class, outcome)", 30)
@@ -256,6 +265,41 @@ func c10RunCase(r *vk.Run, rng *rand.Rand, index int, dir string) (*c10Case, map
 		cfg.StageMode, c.StageMode = synchronization.StageMode_StageModeMutagen, "mutagen"
 	}
 	c.Earlier = rng.Intn(3) == 0
+	c.Abandoned = c.Earlier && rng.Intn(2) == 0
+	// A maximum staging file size placed relative to one planned file: just below its size so
+	// that only its last rsync operation crosses the limit, far below, exactly at, or above.
+	if rng.Intn(4) == 0 {
+		var cands []*c10File
+		for _, f := range c.Files {
+			if f.Size > 0 {
+				cands = append(cands, f)
+			}
+		}
+		if len(cands) > 0 {
+			f := cands[rng.Intn(len(cands))]
+			size := uint64(f.Size)
+			lastOp := size % 65536
+			if lastOp == 0 {
+				lastOp = 65536
+			}
+			c.LimitFile = f.Path
+			c.LimitVariant = []string{"last-op", "last-op", "earlier", "at", "above"}[rng.Intn(5)]
+			switch c.LimitVariant {
+			case "last-op":
+				c.SizeLimit = size - 1 - uint64(rng.Int63n(int64(lastOp)))
+			case "earlier":
+				c.SizeLimit = uint64(rng.Int63n(int64(size-lastOp) + 1))
+			case "at":
+				c.SizeLimit = size
+			case "above":
+				c.SizeLimit = size + 1 + uint64(rng.Intn(100))
+			}
+			if c.SizeLimit == 0 {
+				c.SizeLimit = 1
+			}
+			cfg.MaximumStagingFileSize = c.SizeLimit
+		}
+	}
 	fmt.Printf("C10 case %d: stream=%s stage=%s earlier=%v files=%d\n", index, c.Stream, c.StageMode, c.Earlier, len(c.Files))
 
 	le, err := newLocalEndpoint("C10", root, cfg)
@@ -286,6 +330,9 @@ func c10RunCase(r *vk.Run, rng *rand.Rand, index int, dir string) (*c10Case, map
 				continue
 			}
 			v0 := token(rng, 10+rng.Intn(5000))
+			if c.Abandoned {
+				v0 = token(rng, 150000+rng.Intn(250000))
+			}
 			writeSource(f, v0)
 			paths = append(paths, f.Path)
 			digests = append(digests, sha1Of(v0))
@@ -295,7 +342,20 @@ func c10RunCase(r *vk.Run, rng *rand.Rand, index int, dir string) (*c10Case, map
 			if err != nil {
 				return fail("earlier stage", err)
 			}
-			if receiver != nil {
+			if receiver != nil && c.Abandoned {
+				// The transfer dies after a few operations: the receiver is never finalized.
+				msgs, err := recordStream(src, filtered, sigs)
+				if err != nil || len(msgs) < 2 {
+					return fail("earlier record", err)
+				}
+				stop := 1 + rng.Intn(len(msgs)-1)
+				for _, m := range msgs[:stop] {
+					if err := receiver.Receive(m); err != nil {
+						break
+					}
+				}
+				r.Count("earlier_receivers_abandoned", 1)
+			} else if receiver != nil {
 				if err := rsync.Transmit(src, filtered, sigs, receiver); err != nil {
 					return fail("earlier transmit", err)
 				}
@@ -542,16 +602,26 @@ func c10RunCase(r *vk.Run, rng *rand.Rand, index int, dir string) (*c10Case, map
 		if wasRequested {
 			switch {
 			case c.Stream == "transmit" && f.Feed != "good":
-				knownBad = true
+				// With a staging size limit the store commits the prefix of the delivered data
+				// that fitted; for a source that grew ("longer" = planned content + more) that
+				// prefix can be exactly the planned content, so nothing is known then.
+				knownBad = !(c.SizeLimit != 0 && f.Feed == "longer")
 			case c.Stream == "none":
 				knownBad = true
 			case c.Stream == "abort" && requested[f.Path] > abortFile:
 				knownBad = true
 			case c.Stream == "abort" && requested[f.Path] < abortFile && f.Feed != "good":
-				knownBad = true
+				knownBad = !(c.SizeLimit != 0 && f.Feed == "longer")
 			}
 		}
-		knownGood := (c.Stream == "transmit" || c.Stream == "transmit-no-ops" || !wasRequested) && f.Feed == "good"
+		overSize := c.SizeLimit != 0 && uint64(f.Size) > c.SizeLimit
+		if overSize && wasRequested && (c.Stream == "transmit" || c.Stream == "transmit-no-ops") && f.Feed == "good" {
+			// The planned content itself cannot be staged: the store must refuse it.
+			knownBad = true
+			sigBase["feed"] = "over-size-limit"
+			r.Count("files_over_the_staging_size_limit", 1)
+		}
+		knownGood := (c.Stream == "transmit" || c.Stream == "transmit-no-ops" || !wasRequested) && f.Feed == "good" && !overSize
 		if knownBad {
 			anyBad = true
 			if claim {
@@ -591,7 +661,17 @@ func c10RunCase(r *vk.Run, rng *rand.Rand, index int, dir string) (*c10Case, map
 			r.Count("files_served_locally", 1)
 		}
 		outcome[f.Path] = o
-		r.Distinct(strings.Join([]string{c.Stream, f.Feed, f.Kind, sizeClass(f.Size), o, fmt.Sprint(c.CrossDevice)}, "|"))
+		lim := ""
+		if c.SizeLimit != 0 {
+			lim = "limit:" + c.LimitVariant
+			if f.Path == c.LimitFile {
+				lim += ":this-file"
+			}
+			if overSize {
+				lim += ":over"
+			}
+		}
+		r.Distinct(strings.Join([]string{c.Stream, f.Feed, f.Kind, sizeClass(f.Size), o, fmt.Sprint(c.CrossDevice), lim, fmt.Sprint(c.Abandoned)}, "|"))
 		if c.CrossDevice && claim {
 			r.Count("files_applied_across_devices", 1)
 		}
@@ -716,6 +796,115 @@ func c10LargeCancel(r *vk.Run) {
 				outcome = "not-applied"
 			}
 			r.Distinct(fmt.Sprintf("large-cancel|swap=%v|%s", swap, outcome))
+		}()
+	}
+}
+
+// c10CopyIOError makes the cross-device copy of Transition hit a genuine I/O error part-way
+// (not a cancellation): RLIMIT_FSIZE is lowered around Transition only, so the write that
+// would take the temporary in the root past the limit fails with EFBIG (SIGXFSZ is ignored).
+// The partial temporary must not end up at the planned path. The limit is process-wide,
+// hence these cases run alone, after every other case has finished, and nothing is printed
+// while the limit is in force.
+func c10CopyIOError(r *vk.Run) {
+	const size = 24 << 20
+	rng := r.Rand("copy-io-error")
+	n := r.Pick(4, 16)
+	signal.Ignore(syscall.SIGXFSZ)
+	planned := make([]byte, size)
+	for i := 0; i < n; i++ {
+		copy(planned, token(rng, 64))
+		digest := sha1Of(planned)
+		swap := i%2 == 1
+		limit := uint64(9<<20 + rng.Intn(12<<20))
+		fmt.Printf("C10 cross-device copy with RLIMIT_FSIZE=%d around Transition (swap=%v)\n", limit, swap)
+		shm, err := shmDir(fmt.Sprintf("C10-fsize-%d", i))
+		if err != nil {
+			r.Inconclusive("harness:shm")
+			return
+		}
+		dir := filepath.Join(r.Scratch(), fmt.Sprintf("fsize-%d", i))
+		root, src := filepath.Join(shm, "beta"), filepath.Join(dir, "alpha")
+		func() {
+			defer os.RemoveAll(shm)
+			defer os.RemoveAll(dir)
+			os.MkdirAll(root, 0o755)
+			os.MkdirAll(src, 0o755)
+			var oldDigest []byte
+			if swap {
+				old := token(rng, 5000)
+				os.WriteFile(filepath.Join(root, "big"), old, 0o644)
+				oldDigest = sha1Of(old)
+			}
+			if err := os.WriteFile(filepath.Join(src, "big"), planned, 0o644); err != nil {
+				r.Inconclusive("harness:source")
+				return
+			}
+			le, err := newLocalEndpoint("C10", root, &synchronization.Configuration{WatchMode: synchronization.WatchMode_WatchModeNoWatch})
+			if err != nil {
+				r.Inconclusive("harness:endpoint")
+				return
+			}
+			defer le.shutdown()
+			snap, err := scanEndpoint(le.ep, false)
+			if err != nil {
+				r.Inconclusive("harness:scan")
+				return
+			}
+			changes := []*core.Change{{Path: "big", Old: entryAt(snap.Content, "big"), New: &core.Entry{Kind: core.EntryKind_File, Digest: digest}}}
+			filtered, sigs, receiver, err := le.ep.Stage([]string{"big"}, [][]byte{digest})
+			if err != nil || receiver == nil {
+				r.Inconclusive("harness:stage")
+				return
+			}
+			if err := rsync.Transmit(src, filtered, sigs, receiver); err != nil {
+				r.Inconclusive("harness:transmit")
+				return
+			}
+			var saved syscall.Rlimit
+			if err := syscall.Getrlimit(syscall.RLIMIT_FSIZE, &saved); err != nil {
+				r.Inconclusive("harness:getrlimit")
+				return
+			}
+			if err := syscall.Setrlimit(syscall.RLIMIT_FSIZE, &syscall.Rlimit{Cur: limit, Max: saved.Max}); err != nil {
+				r.Inconclusive("harness:setrlimit")
+				return
+			}
+			results, problems, missing, terr := le.ep.Transition(context.Background(), changes)
+			syscall.Setrlimit(syscall.RLIMIT_FSIZE, &saved)
+			if terr != nil || len(results) != 1 {
+				r.Inconclusive("harness:transition")
+				return
+			}
+			r.Eval(1)
+			res := results[0]
+			claim := res != nil && res.Kind == core.EntryKind_File && bytes.Equal(res.Digest, digest)
+			disk, onDisk := fileSha1(filepath.Join(root, "big"))
+			var probs []string
+			failedInCopy := false
+			for _, p := range problems {
+				probs = append(probs, p.Path+": "+p.Error)
+				if strings.Contains(p.Error, "unable to copy file contents") {
+					failedInCopy = true
+				}
+			}
+			witness := map[string]any{"rlimit_fsize": limit, "swap": swap, "size": size, "result": describe(res), "planned": hexd(digest), "disk": hexd(disk), "on_disk": onDisk, "problems": probs, "missing_files": missing}
+			sig := map[string]string{"stream": "copy-io-error", "kind": map[bool]string{true: "swap", false: "create"}[swap]}
+			if claim && (!onDisk || !bytes.Equal(disk, digest)) {
+				sig["rule"] = "claimed-planned-file-has-other-content"
+				r.Violation(sig, fmt.Sprintf("the cross-device copy of a %d MiB file failed part-way (EFBIG at %d bytes): the result claims the planned file %s but the disk holds %s", size>>20, limit, short(digest), hexd(disk)), witness)
+			} else if onDisk && !bytes.Equal(disk, digest) && !bytes.Equal(disk, oldDigest) {
+				sig["rule"] = "foreign-content-in-root"
+				r.Violation(sig, fmt.Sprintf("the cross-device copy of a %d MiB file failed part-way (EFBIG at %d bytes) and left content %s in the root (planned %s)", size>>20, limit, short(disk), short(digest)), witness)
+			}
+			outcome := "applied"
+			if failedInCopy && !claim {
+				outcome = "copy-failed-cleanly"
+				r.Count("cross_device_copies_failed_mid_copy", 1)
+			} else if !claim {
+				outcome = "not-applied"
+			}
+			r.Distinct(fmt.Sprintf("copy-io-error|swap=%v|%s", swap, outcome))
 		}()
 	}
 }
